@@ -91,10 +91,12 @@ CLAIMED: dict[str, tuple[str, str, str, str]] = {
             TECH),
     "C09": ("DESIGN.md §5 C09",
             "spec/Paths.tla enumerates placements (19 parent-directory names: every always-excluded name, "
-            "test/ignore marker names, the project's own name; 5 working directories incl. a foreign git "
+            "test/ignore marker names, the project's own name; 6 working directories incl. a foreign git "
             "checkout; 6 spellings) and models where the code looks at the path as spelled (layer B flags, "
             "non-vacuity run of the pinned commit); every placement x all 20 commands is executed and compared "
-            "with the reference placement; PathsTrace.tla judges each record.",
+            "with the reference placement; PathsTrace.tla judges each record. Further placements: two path arguments, absolute "
+            "and relative, from outside the project; the root of ANOTHER project (with an ignore file that hides every "
+            "source file of its own tree) as working directory (layer-B flag RuleParserAtCwd, pinned variant violates).",
             "Project marked by .thailint.yaml only; message paths normalised by removing the project prefix as "
             "spelled; a parent literally named .git is excluded (it legitimately is a project-root marker).",
             TECH),
